@@ -10,6 +10,7 @@ LibDC or towards the client) must be processed within a traced-line budget.
 """
 from __future__ import annotations
 
+import hashlib
 import random
 import struct
 import typing as t
@@ -275,6 +276,19 @@ def run_libenc(case) -> dict:
     from dpapi_ng._rpc._pdu import PDU
 
     _, fl, k = case
+    obj, hdr, drep, ptype, trailer = _libenc_obj(k)
+    raw = bytearray(obj.pack())
+    raw[8:10] = len(raw).to_bytes(2, "little")
+    raw = bytes(raw)
+    world = W.World(k)
+    world.add_route(DC, 135, peers.ScriptedPeer([[("send", raw)]]))
+    ctxs = _contexts(1, 1)
+    return _run_libenc_rest(case, fl, k, obj, hdr, drep, ptype, raw, world, ctxs)
+
+
+def _libenc_obj(k: int):
+    import dpapi_ng._rpc as rpc
+
     rng = random.Random(k)
     drep = rpc.DataRep(byte_order=rpc.IntegerRep(k % 2), character=rpc.CharacterRep((k // 2) % 2), floating_point=rpc.FloatingPointRep((k // 4) % 4))
     ptype = [rpc.PacketType.BIND_ACK, rpc.PacketType.ALTER_CONTEXT_RESP, rpc.PacketType.RESPONSE, rpc.PacketType.FAULT, rpc.PacketType.BIND_NAK][k % 5]
@@ -295,12 +309,12 @@ def run_libenc(case) -> dict:
         obj = rpc.Fault(header=hdr, sec_trailer=trailer, alloc_hint=0, context_id=k % 9, cancel_count=0, status=0x1C010000 + k, flags=rpc.FaultFlags(k % 2), stub_data=b"")
     else:
         obj = rpc.BindNak(header=hdr, sec_trailer=None, reject_reason=k % 11, versions=[(5, j) for j in range(k % 3)])
-    raw = bytearray(obj.pack())
-    raw[8:10] = len(raw).to_bytes(2, "little")
-    raw = bytes(raw)
-    world = W.World(k)
-    world.add_route(DC, 135, peers.ScriptedPeer([[("send", raw)]]))
-    ctxs = _contexts(1, 1)
+    return obj, hdr, drep, ptype, trailer
+
+
+def _run_libenc_rest(case, fl, k, obj, hdr, drep, ptype, raw, world, ctxs) -> dict:
+    import dpapi_ng._rpc as rpc
+    from dpapi_ng._rpc._pdu import PDU
 
     def sync_work():
         with rpc.create_rpc_connection(DC) as c:
@@ -337,6 +351,73 @@ def run_libenc(case) -> dict:
                                 f"client did not accept a library-encoded {label}: {out.exc!r}")
     return {"viol": viol, "digest": world.digest() + out.brief(), "key": common.key_hash(case), "fired": {}, "probes": {"libenc": 1, "libenc_drep_be": int(drep.byte_order == 0)},
             "vtime_ns": world.stats.get("vtime_ns", 0)}
+
+
+def _codec_job(job):
+    """One pure codec computation -> a comparable value (decoded field values as repr, encoded bytes)."""
+    import dpapi_ng._epm as epm
+    import dpapi_ng._rpc as rpc
+    from dpapi_ng._rpc._pdu import PDU
+
+    what, k = job
+    if what == "cat":  # reference-encoded PDU -> library decode -> library encode
+        _kind, raw = _pdu_catalogue(k)
+        obj = PDU.unpack(raw)
+        return repr(obj), bytes(obj.pack())
+    if what == "lib":  # library object -> encode -> decode -> encode
+        obj = _libenc_obj(k)[0]
+        rawb = bytearray(obj.pack())
+        rawb[8:10] = len(rawb).to_bytes(2, "little")  # (frag_len is the sender's job, as in the libenc cases)
+        raw = bytes(rawb)
+        back = PDU.unpack(raw)
+        return raw, repr(back), bytes(back.pack())
+    if what == "vt":
+        vt = _vt(1 + k % 8)
+        raw = bytes(vt.pack())
+        back = rpc.VerificationTrailer.unpack(raw)
+        return raw, repr(back), bytes(back.pack())
+    if what == "epm":
+        stub = rpce.ndr64_ept_map_response(_tower_variants(k), status=0)
+        res = epm.EptMapResult.unpack(stub)
+        return repr(res), bytes(res.pack())
+    if what == "ctx":
+        els = _contexts(k % 9, (k // 9) % 5)
+        return tuple(bytes(e.pack()) for e in els)
+    raise ValueError(what)
+
+
+def run_threads(case) -> dict:
+    """["threads", seed, n_threads, policy]: caller threads of one process encode and decode at the same time (each of them would be
+    inside its own RPC conversation); simworld.threads decides every pre-emption at line events inside dpapi_ng.  Every result
+    must equal what the same computation gives when nothing else runs."""
+    from simworld import threads as simthreads
+    from checks import plan as P
+
+    _, seed, n_threads, policy = case
+    r = random.Random(seed)
+    jobs = [[(r.choice(("cat", "cat", "lib", "lib", "vt", "epm", "ctx")), r.randrange(600)) for _ in range(r.randint(3, 10))] for _ in range(n_threads)]
+    alone = [[_codec_job(j) for j in js] for js in jobs]
+    tsim = simthreads.ThreadSim(random.Random(seed ^ 0xC12), P.SRC_PREFIX(), policy)
+    try:
+        res = tsim.run([(lambda js=js: [_codec_job(j) for j in js]) for js in jobs])
+    except simthreads.Wedged as e:
+        raise common.HarnessError(str(e))
+    viol = None
+    for ti, ((got, exc), want) in enumerate(zip(res, alone)):
+        if exc is not None:
+            viol = common.violation("C12", "codec", "threads", type(exc).__name__, common.innermost_repo_frame(exc) if isinstance(exc, Exception) else "", "",
+                                    f"thread {ti}: a codec call that succeeds alone raised {exc!r} while other threads were encoding/decoding; jobs={jobs[ti]}")
+            break
+        bad = [j for j, a, b_ in zip(jobs[ti], got, want) if a != b_]
+        if bad:
+            viol = common.violation("C12", "codec", "threads", "result-depends-on-other-threads", bad[0][0], "",
+                                    f"thread {ti}: {bad[0]} gives other bytes / field values when other threads encode or decode at the same time "
+                                    f"({len(tsim.switches)} pre-emptions); schedule={tsim.script()['switches'][:6]}")
+            break
+    dig = hashlib.sha256(repr((res, tsim.switches)).encode()).hexdigest()
+    return {"viol": viol, "digest": dig, "key": common.key_hash(case), "sched_key": common.key_hash(tsim.switches) if tsim.switches else None,
+            "fired": {"thread_preemptions": len(tsim.switches)}, "probes": {"thread_cases": 1, "thread_overlap": tsim.overlap}, "vtime_ns": 0,
+            "_script": tsim.script()}
 
 
 def run_types(case) -> dict:
@@ -474,9 +555,8 @@ def run_tear(case) -> dict:
         return {"viol": viol, "digest": world.digest() + out.brief(), "key": common.key_hash(case) if state.get("done") else None,
                 "fired": {"reqtear" if direction == "to-libdc" else "replytear": int(bool(state.get("done")))},
                 "probes": {"tear_outcome_" + out.kind: 1, "tear_vt": 1}, "vtime_ns": world.stats.get("vtime_ns", 0)}
-    import tracemalloc
-
-    tracemalloc.start()
+    vmw = common.VmWatch()
+    vmw.__enter__()
     with world.installed(ctx_factory=drive.stub_ctx_factory(cfg, record)):
         with common.LineBudget(LINE_A + LINE_B * 6000) as lb:
             budget.append(lb)
@@ -484,10 +564,10 @@ def run_tear(case) -> dict:
                 out = drive.classify(lambda: dclient._sync_get_key(DC, sd, rk.root_key_id, 361, 5, 6))
             else:
                 out = drive.classify(lambda: drive.run_async(world, lambda: dclient._async_get_key(DC, sd, rk.root_key_id, 361, 5, 6), random.Random(seed)))
-    _cur, peak = tracemalloc.get_traced_memory()
-    tracemalloc.stop()
+    vmw.__exit__(None, None, None)
+    peak = vmw.growth
     viol = None
-    if peak > 32_000_000 + 256 * total[0]:
+    if peak > (64 << 20) + 256 * total[0]:
         viol = common.violation("C12", "termination", fl, "memory", drive.exc_sig(out)[1], direction,
                                 f"garbled fragment ({direction}) made the decoders allocate {peak >> 20} MiB (peak) for {total[0]} garbled bytes")
     if not viol and out.kind in ("budget", "spin"):
@@ -510,13 +590,14 @@ class C12(common.Check):
             "re-encode == bytes); (libenc) PDUs built by the library's own encoders with non-default header values (data representation "
             "flags, minor version, call ids) sent to the client. (tear) one message of a full "
             "EPM+GKDI conversation is garbled in flight (towards LibDC or towards the client: truncation with consistent frag_len, bit flips, "
-            "NDR count rewrites up to 2^64-1, growth) under a traced-line budget. Non-trivial = every case; distinct = distinct tuple.")
+            "NDR count rewrites up to 2^64-1, growth) under a traced-line budget; (threads) 2..4 caller threads of one process run codec "
+            "computations at the same time, pre-empted at PRNG-chosen line events inside dpapi_ng, and every result must equal the one computed alone. Non-trivial = every case; distinct = distinct tuple.")
     components = {"client": "real (all client-direction codecs, RpcClient)", "LibDC": "real codecs in the server role (Bind/AlterContext/Request/"
                   "VerificationTrailer/EptMap/GetKey decode, BindAck/AlterContextResponse/Response/Fault/BindNak/EptMapResult/GroupKeyEnvelope encode)",
                   "reference server / monitor": "model (ref.rpce)", "security context": "stub", "transport": "simulated, with in-flight adversary"}
     assumptions = ["decode(encode(x)) = x is claimed only for messages that cross the wire between the three parties (values no party sends are outside the technique)",
                    "NDR referent ids are free: NDR64 stubs are compared through the independent decoder"]
-    required_fired = ("codec_lib", "codec_ref", "reqtear", "replytear", "tear_vt", "libenc", "libenc_drep_be") + tuple("tower_len_mod8_%d" % i for i in range(8)) + tuple("vt_kind_%d" % i for i in range(9))
+    required_fired = ("codec_lib", "codec_ref", "reqtear", "replytear", "tear_vt", "libenc", "libenc_drep_be", "thread_cases", "thread_overlap") + tuple("tower_len_mod8_%d" % i for i in range(8)) + tuple("vt_kind_%d" % i for i in range(9))
 
     def cases(self, tier, seed):
         out = []
@@ -543,6 +624,9 @@ class C12(common.Check):
             out.append(["types", "sync" if k % 2 else "async", k])
         for k in range(0, 400 if tier == "quick" else 4000):
             out.append(["libenc", "sync" if k % 2 else "async", k])
+        for k in range(0, 300 if tier == "quick" else 20000):
+            pol = {"mode": "prob", "p": (0.01, 0.1, 0.4)[k % 3]} if k % 2 else {"mode": "points", "n": 1 + k % 5, "horizon": (200, 2000)[(k // 2) % 2]}
+            out.append(["threads", rng.getrandbits(30), 2 + k % 3, pol])
         n_tear = 1500 if tier == "quick" else 80000
         for i in range(n_tear):
             out.append(["tear", "to-libdc" if i % 2 else "to-client", rng.choice(("sync", "async")), rng.choice(("epm", "gkdi", "vt") if i % 2 else ("epm", "gkdi")), rng.getrandbits(30)])
@@ -550,9 +634,22 @@ class C12(common.Check):
 
     def run_case(self, case):
         try:
-            return {"conv": run_conv, "epm": run_epm, "types": run_types, "tear": run_tear, "libenc": run_libenc}[case[0]](case)
+            return {"conv": run_conv, "epm": run_epm, "types": run_types, "tear": run_tear, "libenc": run_libenc, "threads": run_threads}[case[0]](case)
         except wiremon.MonitorHarnessError as e:
             raise common.HarnessError(str(e))
+
+    def warmup(self, cases):
+        seen = set()
+        for c in cases:
+            k = (c[0], c[1], c[2]) if c[0] in ("tear", "conv", "epm") else (c[0],)
+            if c[0] == "tear":
+                k = k + (c[3],)
+            if k not in seen and c[0] != "threads":
+                seen.add(k)
+                try:
+                    self.run_case(c)
+                except Exception:  # noqa: BLE001 - reported by the workers
+                    pass
 
     def shrink(self, case):
         if case[0] == "conv":
@@ -565,11 +662,25 @@ class C12(common.Check):
         elif case[0] == "epm":
             for k in range(case[3]):
                 yield case[:3] + [k] + case[4:]
+        elif case[0] == "threads":
+            pol = case[3]
+            if pol.get("mode") != "script":
+                yield case[:3] + [run_threads(case)["_script"]]
+            else:
+                sw = pol["switches"]
+                if len(sw) > 2:
+                    yield case[:3] + [dict(pol, switches=sw[: len(sw) // 2])]
+                    yield case[:3] + [dict(pol, switches=sw[len(sw) // 2 :])]
+                for k in range(min(len(sw), 40)):
+                    yield case[:3] + [dict(pol, switches=sw[:k] + sw[k + 1 :])]
+            if case[2] > 2:
+                yield case[:2] + [2] + case[3:]
 
     def sample_repr(self, case, res):
         names = {"conv": ("kind", "codec", "flavour", "n_contexts", "n_transfer_syntaxes", "sec_addr_len", "token_size", "stub_len", "vt_variant", "reply_len"),
                  "epm": ("kind", "codec", "flavour", "tower_variant", "status"), "types": ("kind", "flavour", "pdu_variant"),
-                 "tear": ("kind", "direction", "flavour", "conversation", "seed"), "libenc": ("kind", "flavour", "variant")}[case[0]]
+                 "tear": ("kind", "direction", "flavour", "conversation", "seed"), "libenc": ("kind", "flavour", "variant"),
+                 "threads": ("kind", "seed", "n_threads", "policy")}[case[0]]
         return dict(zip(names, case))
 
 
